@@ -5,7 +5,12 @@
 // Prints op/observation lines for the Lean model (Qx.Model.C09Sm) and evaluates the property itself
 // (oracle, own bookkeeping, independent of the model).
 #include "common.h"
+#include "QXmppClient.h"
+#include "QXmppClient_p.h"
+#include "QXmppDiscoveryManager.h"
+#include "QXmppEntityTimeManager.h"
 #include "QXmppIq.h"
+#include "QXmppVersionManager.h"
 #include "QXmppOutgoingClient.h"
 #include "QXmppOutgoingClient_p.h"
 #include "QXmppPacket_p.h"
@@ -55,6 +60,8 @@ class TestClient
 {
 public:
     static QXmppOutgoingClientPrivate *priv(QXmppOutgoingClient *c) { return c->d.get(); }
+    static QXmppOutgoingClient *stream(QXmppClient *c) { return c->d->stream; }
+    static QXmppClientPrivate *cpriv(QXmppClient *c) { return c->d.get(); }
     static void handleStart(QXmppOutgoingClient *c) { c->handleStart(); }
     static void received(QXmppOutgoingClient *c, const QDomElement &e) { c->handlePacketReceived(e); }
     static void socketDisconnected(QXmppOutgoingClient *c) { c->_q_socketDisconnected(); }
@@ -114,7 +121,7 @@ struct Rc {              // one reconnect scenario
 struct Pkt {
     bool stanza = false;
     bool nested = false;  // sent from inside a delivery report
-    bool iq = false;  // tracked request sent with sendIq(): its delivery report is consumed by the IQ manager, not observable
+    bool iq = false;  // report not observable: tracked request (sendIq(), report consumed by the IQ manager) or a stanza the client sends by itself
     int reports = 0;
     long seq = 0;  // oracle's own numbering (0 = never stored)
     std::optional<QXmppTask<SendResult>> task;
@@ -122,7 +129,9 @@ struct Pkt {
 
 struct Env {
     std::unique_ptr<QObject> ctx { new QObject };
+    QXmppClient *client = nullptr;   // a real QXmppClient with the managers that answer requests by themselves
     QXmppOutgoingClient *c = nullptr;
+    bool autoCreated = false;        // the client created a stanza of its own (initial presence) during the current injection
     FakeSock *fs = nullptr;
     std::vector<std::string> ev;  // events of the current op (wire tokens, reports, w0/w1) in real-time order
     std::vector<int> wirePkts;    // packet labels written during the current op
@@ -155,7 +164,11 @@ struct Env {
 
     explicit Env(bool muted = false) : mute(muted)
     {
-        c = new QXmppOutgoingClient(nullptr);
+        client = new QXmppClient(QXmppClient::NoExtensions);
+        client->addNewExtension<QXmppVersionManager>();
+        client->addNewExtension<QXmppEntityTimeManager>();
+        client->addNewExtension<QXmppDiscoveryManager>();
+        c = TestClient::stream(client);
         fs = new FakeSock;
         fs->setParent(c);
         fs->sink = [this](const QByteArray &d) { onWrite(d); };
@@ -179,7 +192,7 @@ struct Env {
     {
         tearing = true;
         fs->down();
-        delete c;  // ~QXmppOutgoingClient -> resetCache(): every pending packet gets its (single) report
+        delete client;  // ~QXmppOutgoingClient -> resetCache(): every pending packet gets its (single) report
         for (size_t i = 0; i < pk.size(); i++) {
             if (pk[i].iq) continue;
             if (!pk[i].task) continue;
@@ -202,8 +215,20 @@ struct Env {
     void onWrite(const QByteArray &d)
     {
         if (d.startsWith("<?xml") || d.startsWith("<stream:stream")) return;  // stream header: not SM relevant
-        if (d.startsWith("<message id='P") || d.startsWith("<nz id='P") || d.startsWith("<iq id=\"P")) {
-            int id = atoi(attr(d, "id").c_str() + 1);
+        std::string wid = (d.startsWith("<iq ") || d.startsWith("<presence ")) ? attr(d, "id") : std::string();
+        bool own = d.startsWith("<message id='P") || d.startsWith("<nz id='P");
+        // P<n>: sendIq request, G<n>: reply to the request we injected with that id, A<n>: the client's initial presence
+        bool labelled = wid.size() > 1 && (wid[0] == 'P' || wid[0] == 'G' || wid[0] == 'A') && wid.find_first_not_of("0123456789", 1) == std::string::npos;
+        if (own || labelled) {
+            int id = atoi((own ? attr(d, "id") : wid).c_str() + 1);
+            if (labelled && wid[0] == 'A' && id == (int)pk.size()) {
+                // first transmission of an initial presence: the client has created a stanza by itself
+                bool en = sam().enabled();
+                pk.push_back(Pkt { true, false, true, 0, 0, std::nullopt });
+                if (en) { pend.push_back(id); pk[id].seq = ++myLastOut; }
+                autoCreated = true;
+                stat("auto_initial_presence");
+            }
             ev.push_back("P" + std::to_string(id));
             wirePkts.push_back(id);
             if (srvOn && !d.startsWith("<nz")) srvCount++;  // the server counts every stanza it receives on the session
@@ -289,7 +314,10 @@ struct Env {
     void checkServerCount()
     {
         if (!srvOn || !srvValid || dirty || !connected) return;
-        if (srvCount != myLastOut) { oracleFail("C09:numbering:server-count-diverges", history); srvValid = false; }
+        // the client's numbering is read from the real object (private counter, explicit-instantiation access), so a stanza
+        // that reaches the wire without passing through stream management is seen here
+        long real = (long)(sam().*get(TagLastOut()));
+        if (srvCount != real || srvCount != myLastOut) { oracleFail("C09:numbering:server-count-diverges", history); srvValid = false; }
         else oraclePass()++;
     }
 
@@ -376,6 +404,28 @@ struct Env {
         if (outstanding.size() != before - 1) { fprintf(stderr, "harness: IQ response did not finish the request\n"); exit(3); }
         stat(which == 'r' ? "iq_result_matched" : "iq_error_matched");
         line(which == 'r' ? "recv iqr" : "recv iqe");
+    }
+    // server -> client traffic that makes the CLIENT send by itself: an IQ request. 'u' = nobody handles it (QXmppOutgoingClient
+    // answers feature-not-implemented), 'v' / 't' / 'i' = answered by QXmppVersionManager / QXmppEntityTimeManager / QXmppDiscoveryManager
+    void recvReq(char kind, bool forceDown)
+    {
+        std::string op = std::string("recvReq ") + ud(forceDown);
+        history += "{" + op + " " + kind + "}";
+        if (sam().enabled()) recvOn++;
+        else if (connected) strayLegit++;
+        else strayPhantom++;
+        int id = (int)pk.size();
+        bool en = sam().enabled();
+        pk.push_back(Pkt { true, false, true, 0, 0, std::nullopt });
+        if (en) { pend.push_back(id); pk[id].seq = ++myLastOut; if (!(connected && !forceDown)) dirty = true; }
+        QByteArray payload = kind == 'v' ? "<query xmlns='jabber:iq:version'/>" : kind == 't' ? "<time xmlns='urn:xmpp:time'/>"
+            : kind == 'i' ? "<query xmlns='http://jabber.org/protocol/disco#info'/>" : "<q xmlns='urn:verif:nobody'/>";
+        if (forceDown && connected) fs->down();
+        inject(parseDoc("<iq xmlns='jabber:client' type='get' from='srv.example' to='u@example.org/r' id='G" + QByteArray::number(id) + "'>" + payload + "</iq>"));
+        if (forceDown && connected) fs->up();
+        stat(std::string("auto_reply_") + kind);
+        checkServerCount();
+        line(op);
     }
     void afterAck(long h)
     {
@@ -565,6 +615,7 @@ struct Env {
         connected = true;
         TestClient::handleStart(c);
         lastReq = None;
+        autoCreated = false;
         if (rc.sasl2) inject(rc.pol == PolN ? docs->featSasl2NoSm : docs->featSasl2);
         else inject(rc.pol == PolN ? docs->featNoSm : docs->featSm);
         for (int guard = 0; guard < 8; guard++) {
@@ -633,7 +684,11 @@ struct Env {
                         inAckOp = false;
                         if (hasResume) line(failedOp);
                     }
-                    inject(docs->featEmpty);  // the features of the authenticated stream: nothing left to negotiate
+                    // the features of the authenticated stream: nothing left to negotiate -> the session opens; QXmppClient sends its
+                    // initial presence by itself (id chosen here so that the stanza can be recognised on the wire)
+                    TestClient::cpriv(client)->clientPresence.setId(QStringLiteral("A") + QString::number(pk.size()));
+                    inject(docs->featEmpty);
+                    if (autoCreated) { autoCreated = false; checkServerCount(); if (doEmit) line("auto u"); }
                 }
             }
         }
@@ -655,6 +710,11 @@ struct Env {
         else if (sym == "q") req(false);
         else if (sym == "qd") req(true);
         else if (sym == "m" || sym == "p" || sym == "i" || sym == "x") recv(sym[0]);
+        else if (sym == "G") recvReq('u', false);
+        else if (sym == "Gv") recvReq('v', false);
+        else if (sym == "Gt") recvReq('t', false);
+        else if (sym == "Gi") recvReq('i', false);
+        else if (sym == "Gx") recvReq('u', true);
         else if (sym == "I") sendIq(false);
         else if (sym == "Id") sendIq(true);
         else if (sym == "Jr") recvIqResponse('r');
@@ -795,6 +855,8 @@ int main(int argc, char **argv)
     runSeq({ "E", "N", "m", "R=" }, true);                // witness of the defect fixed by repo commit 6d4ec74: <resume h/> counted a stanza received on a session without SM
     runSeq({ "E", "I", "Jr", "q" }, true);                // a response to a tracked request is a stanza of the session: <a h=1/>
     runSeq({ "E", "I", "I", "Je", "L", "R=", "Jr", "q" });
+    runSeq({ "E", "G", "s", "a-", "L", "R=" }, true);          // the client answers an unhandled IQ request by itself: numbered like any other stanza (seeded change C09_c1)
+    runSeq({ "E2", "Gv", "s", "L", "R2-", "Gt", "a=" });       // initial presence after SASL2, manager replies
     runSeq({ "E", "s", "s", "L", "R-r", "s", "a=" }, true);   // witness of the defect fixed by 8fe1a13: a delivery report fired by <resumed/> sends a stanza (was: written before the resent ones, not numbered)
     runSeq({ "E", "s", "s", "s", "L", "Eh-", "a=" }, true);   // witness of the defect fixed by 29f1a4c: <failed h='2'/> was ignored, the two handled stanzas were transmitted again
     runSeq({ "E2", "s", "s", "L", "R2-", "s", "L", "E2h=", "a=" }, true);  // SASL2 inline <resume/>, Bind2 inline <enable/>
@@ -839,11 +901,14 @@ int main(int argc, char **argv)
     }
     // re-entrant delivery reports at both ack sites, <failed h/>; SASL2/Bind2 inline negotiation
     const std::vector<std::string> coreRe = { "s", "a=r", "a-r", "a+r", "q", "L", "R-r", "Eh-r", "Cr", "E" };
+    // traffic the client sends by itself (replies to requests, initial presence after SASL2) between application sends, acks, losses, resumes
+    const std::vector<std::string> coreAuto = { "s", "G", "Gv", "a-", "q", "L", "R-", "E", "E2" };
     const std::vector<std::string> coreS2 = { "s", "a-", "q", "m", "L", "E2", "R2-", "R2=r", "E2h-", "F2", "N2" };
     std::vector<std::string> wide31 = wide;
-    for (auto x : { "a=r", "R-r", "Eh-", "Eh=", "E2", "R2-", "R2=", "N2", "F2", "Eh-r", "Cr" }) wide31.push_back(x);
+    for (auto x : { "a=r", "R-r", "Eh-", "Eh=", "E2", "R2-", "R2=", "N2", "F2", "Eh-r", "Cr", "G", "Gv", "Gt", "Gi" }) wide31.push_back(x);
     stat("exh_coreRe10_depth5", enumerate(coreRe, 5));
-    stat("exh_wide33_depth3", enumerate(wide31, 3));
+    stat("exh_coreAuto9_depth5", enumerate(coreAuto, 5));
+    stat("exh_wide37_depth3", enumerate(wide31, 3));
     stat("exh_coreS2_11_depth4", enumerate(coreS2, 4));
     stat("exh_core11_depth5", enumerate(core11, 5));
     stat("exh_prefixEsd_core9_depth5", enumerate(core9, 5, { "E", "s", "d" }));
@@ -856,7 +921,7 @@ int main(int argc, char **argv)
 
     // seeded random histories up to 60 symbols, including failed writes during every kind of operation
     std::vector<std::string> rnd = wide31;
-    for (auto x : { "a-r", "a+r", "R=r", "R2=r", "R2-r", "R2+", "E2h-", "E2h=", "E2h-r", "Eh=r", "Er", "E2d", "R2-d", "R-rd", "Eh-rd" }) rnd.push_back(x);
+    for (auto x : { "a-r", "a+r", "R=r", "R2=r", "R2-r", "R2+", "E2h-", "E2h=", "E2h-r", "Eh=r", "Er", "E2d", "R2-d", "R-rd", "Eh-rd", "G", "G", "Gv", "Gx" }) rnd.push_back(x);
     for (auto s : { "s", "s", "s", "a=", "a-", "m", "q", "nd", "qd", "Ed", "R-d", "R-", "E", "L", "I", "I", "Id", "Jr", "Jr", "Je" }) rnd.push_back(s);
     Rng rng(a.seed);
     int nrand = thorough ? 16000 : 4000;
